@@ -28,7 +28,9 @@ func objKeys() []objKey {
 		"e\u0301", "a\u0663", "a\u203f", "\u2160", "\u2118", "x\u0300y"} {
 		ks = append(ks, objKey{"id", w})
 	}
-	for _, w := range []string{"0", "1", "42", "1.0", "1.50", "1e3", "2E2", ".5", "0.25", "5.", "0x10", "0XfF", "010", "00", "100", "9007199254740992"} {
+	for _, w := range []string{"0", "1", "42", "1.0", "1.50", "1e3", "2E2", ".5", "0.25", "5.", "0x10", "0XfF", "010", "00", "100", "9007199254740992",
+		"1e21", "1E+21", "1e20", "100000000000000000000", "1000000000000000000000", "1.25e22", "12.50e1", "1e-6", "0.000001", "1e-7", "0.0000001",
+		"1.5e-10", "4.5E-5", "0.1", "1.5e300", "1e999", "0.0", "0e5", "0x0", "123456789012345", "0.000123456789012345", "077", "0xFFFFFFFFFFFFF"} {
 		ks = append(ks, objKey{"num", w})
 	}
 	for _, w := range []string{"'a'", "\"b c\"", "'\\x41'", "'if'", "'1'", "''", "'\\u00e9'", "'get'", "\"\\n\""} {
